@@ -177,6 +177,8 @@ impl Script {
         for (i, (template, script)) in script_template.0.iter().zip(self.0.iter()).enumerate() {
             let is_match = match (template, script) {
                 (MatchToken::OpCode(tmpl_code), ScriptBit::OpCode(op_code)) => Ok(tmpl_code == op_code),
+                // A push of no data is the byte 00: the element an OP_0 token stands for, however the script was assembled
+                (MatchToken::OpCode(OP_0), ScriptBit::Push(data)) if data.is_empty() => Ok(true),
                 (MatchToken::Push(tmpl_data), ScriptBit::Push(data)) => Ok(*tmpl_data == *data),
                 (MatchToken::PushData(tmpl_op, tmpl_data), ScriptBit::PushData(op, data)) => Ok(tmpl_op == op && tmpl_data == data),
 
